@@ -624,6 +624,51 @@ def run(index, rep, tier):
                               "PhylogeneticDistanceMatrix.%s obtains `%s` and never reads it: with is_normalize_by_tree_size=True the result is the raw value (a mean pairwise distance of 6.2 where 0.459 of the tree length is expected), while its twin summary still normalises" % (mname, fac))
         rep.floor("R14.17", "methods that obtain a normalisation factor", 3, n17)
 
+    # ---- R14.18 a missing length counts as zero, it is not added as None
+    with rep.section("R14.18"):
+        rep.rule("R14.18", "a missing length counts as zero, it is never added as None: in the distance-matrix compilers an `<x>.edge.length` / `edge_length` read that is an operand of `+` / `+=` lies on a path that has established `<that expression> is not None` (or goes through a local given `... if ... is not None else 0.0`) - trees without branch lengths are inside the property's quantifier, and `1.0 + None` is a TypeError")
+        n18 = 0
+        for f in index.functions_in_module("dendropy.calculate.phylogeneticdistance"):
+            if "compile_from_tree" not in f.name:
+                continue
+            g18 = cfg_of(f)
+            ops = []
+            for x in ast.walk(f.node):
+                if isinstance(x, ast.BinOp) and isinstance(x.op, (ast.Add, ast.Sub)):
+                    ops += [(o, x) for o in (x.left, x.right)]
+                elif isinstance(x, ast.AugAssign) and isinstance(x.op, (ast.Add, ast.Sub)):
+                    ops.append((x.value, x))
+            for o, holder in ops:
+                if not (isinstance(o, ast.Attribute) and o.attr in ("length", "edge_length")):
+                    continue
+                n18 += 1
+                xt = norm(o)
+
+                def unknown(s_, l_, d_, xt=xt):
+                    if s_.kind == "test" and isinstance(s_.ast, ast.Compare) and len(s_.ast.ops) == 1 and norm(s_.ast.left) == xt and is_none(s_.ast.comparators[0]):
+                        if isinstance(s_.ast.ops[0], ast.IsNot):
+                            return l_ != "t"
+                        if isinstance(s_.ast.ops[0], ast.Is):
+                            return l_ != "f"
+                    return True
+                nd = node_of_ast(g18, o)
+                seen = g18.reach([g18.entry], follow_exc=False, edge_ok=unknown)
+                inline_guard = False
+                pm18 = parent_map(f.node)
+                cur = o
+                while cur in pm18:
+                    cur = pm18[cur]
+                    if isinstance(cur, ast.IfExp) and xt in norm(cur.test) and "None" in norm(cur.test):
+                        inline_guard = True
+                cur = o
+                while cur in pm18:
+                    prev, cur = cur, pm18[cur]
+                    if isinstance(cur, ast.Try) and any(prev is b_ for b_ in cur.body) and any(h.type is not None and "TypeError" in norm(h.type) for h in cur.handlers):
+                        inline_guard = True     # `try: total += e.length / except TypeError: pass`: the repository's other idiom for a missing length
+                rep.check(inline_guard or (nd is not None and nd not in seen), "R14.18", f.qualname, "`%s` added without a None test" % xt, fn_where(f, o), "%s: `%s` is added only where it is not None" % (f.qualname.split(".")[-2] + "." + f.name, xt),
+                          "%s adds `%s` on a path that has not established it is not None: for a tree where that edge has no length (`((a,b),(c,d));`, or `((a:1,b):2,...)`) the compilation raises TypeError instead of counting the missing length as zero" % (f.qualname, xt))
+        rep.floor("R14.18", "edge lengths used as operands of + in the distance compilers", 2, n18)
+
 
 def option_default_rule(index, rep, rid, cq, options):
     ci = index.klass(cq)
